@@ -25,13 +25,13 @@ use stellar_accounts::smart_account::{ContextRule, Signer};
 
 use crate::util::*;
 
-const S_MAIN: usize = 0;
-const S_OTHER: usize = 1;
-const DECLARED: usize = 2;
+pub(crate) const S_MAIN: usize = 0;
+pub(crate) const S_OTHER: usize = 1;
+pub(crate) const DECLARED: usize = 2;
 
 // ------------------------------------------------------------------------------------------ helpers
 /// word-wise equality, 8 words per loop trip (keeps the unwind bound small for VW = 48 / EW = 64)
-fn words_eq<const N: usize>(a: &[u64; N], b: &[u64; N]) -> bool {
+pub(crate) fn words_eq<const N: usize>(a: &[u64; N], b: &[u64; N]) -> bool {
     let mut r = true;
     let mut c = 0;
     while c < N {
@@ -48,19 +48,19 @@ fn words_eq<const N: usize>(a: &[u64; N], b: &[u64; N]) -> bool {
     r
 }
 /// same key, presence and value words (the TTL may differ)
-fn same_entry(a: &Slot, b: &Slot) -> bool {
+pub(crate) fn same_entry(a: &Slot, b: &Slot) -> bool {
     a.claimed == b.claimed && a.present == b.present && a.dur == b.dur && words_eq(&a.key, &b.key) && words_eq(&a.val, &b.val)
 }
 /// completely untouched, TTL included
-fn untouched(a: &Slot, b: &Slot) -> bool {
+pub(crate) fn untouched(a: &Slot, b: &Slot) -> bool {
     same_entry(a, b) && a.live_until == b.live_until
 }
-fn one_event(id: u64, words: &[u64; EW]) -> bool {
+pub(crate) fn one_event(id: u64, words: &[u64; EW]) -> bool {
     let w = world();
     w.n_events == 1 && w.events[0].id == id && words_eq(&w.events[0].w, words)
 }
 /// a new invocation has its own symbolic authorization set
-fn redraw_auth() {
+pub(crate) fn redraw_auth() {
     let w = world();
     let mut i = 0;
     while i < model::NADDR {
@@ -69,11 +69,11 @@ fn redraw_auth() {
     }
     w.n_auth = 0;
 }
-fn arb_acct() -> Address {
+pub(crate) fn arb_acct() -> Address {
     addr_below(4)
 }
 /// slot 1: the policy entry of another (account, rule) pair with arbitrary contents
-fn declare_other<K: Flat>(key: &K, main: &K) -> Slot {
+pub(crate) fn declare_other<K: Flat>(key: &K, main: &K) -> Slot {
     kani::assume(!flat_eq(key, main));
     let present: bool = kani::any();
     let v: (u64, u64, u64) = (kani::any(), kani::any(), kani::any());
@@ -83,7 +83,7 @@ fn declare_other<K: Flat>(key: &K, main: &K) -> Slot {
 }
 /// signer universe of this family: Delegated(any of 5 addresses) or External(any of 5 verifier addresses, a key of
 /// one or two arbitrary bytes). The policies treat signers as opaque values (equality / map order only).
-fn arb_signer() -> Signer {
+pub(crate) fn arb_signer() -> Signer {
     let a = Address::arb();
     if kani::any() {
         Signer::Delegated(a)
@@ -94,7 +94,7 @@ fn arb_signer() -> Signer {
         Signer::External(a, key)
     }
 }
-fn arb_signers() -> Vec<Signer> {
+pub(crate) fn arb_signers() -> Vec<Signer> {
     let n: u32 = kani::any();
     kani::assume(n as usize <= CAP);
     let mut v = Vec::new(&Env);
@@ -108,7 +108,7 @@ fn arb_signers() -> Vec<Signer> {
     v
 }
 /// arbitrary stored weights: 0..=CAP distinct signers (sorted: the host's map invariant), arbitrary u32 weights
-fn arb_weights() -> Map<Signer, u32> {
+pub(crate) fn arb_weights() -> Map<Signer, u32> {
     let keys = arb_signers();
     let mut vals: Vec<u32> = Vec::new(&Env);
     let mut k = 0;
@@ -121,11 +121,11 @@ fn arb_weights() -> Map<Signer, u32> {
     Map::assume_from_parts(keys, vals)
 }
 /// the weight the stored map gives to `s` (the model's own map lookup: the map is trusted base, the policy is not)
-fn weight_of(m: &Map<Signer, u32>, s: &Signer) -> Option<u32> {
+pub(crate) fn weight_of(m: &Map<Signer, u32>, s: &Signer) -> Option<u32> {
     m.get(s.clone())
 }
 /// sum over the LIST `signers` (every occurrence counts, as coded) of the stored weights; unknown signers count 0
-fn listed_weight(m: &Map<Signer, u32>, signers: &Vec<Signer>) -> u64 {
+pub(crate) fn listed_weight(m: &Map<Signer, u32>, signers: &Vec<Signer>) -> u64 {
     let mut sum: u64 = 0;
     let mut k = 0;
     while k < CAP {
@@ -140,7 +140,7 @@ fn listed_weight(m: &Map<Signer, u32>, signers: &Vec<Signer>) -> u64 {
     }
     sum
 }
-fn total_weight(m: &Map<Signer, u32>) -> u64 {
+pub(crate) fn total_weight(m: &Map<Signer, u32>) -> u64 {
     let vs = m.values();
     let mut sum: u64 = 0;
     let mut k = 0;
@@ -156,15 +156,15 @@ fn total_weight(m: &Map<Signer, u32>) -> u64 {
 }
 
 // =========================================================================================== simple threshold
-struct StPre {
-    acct: Address,
-    rule: ContextRule,
-    present: bool,
-    thr: u32,
-    main: Slot,
-    other: Slot,
+pub(crate) struct StPre {
+    pub(crate) acct: Address,
+    pub(crate) rule: ContextRule,
+    pub(crate) present: bool,
+    pub(crate) thr: u32,
+    pub(crate) main: Slot,
+    pub(crate) other: Slot,
 }
-fn st_declare() -> StPre {
+pub(crate) fn st_declare() -> StPre {
     let acct = arb_acct();
     let rule = ContextRule::arb();
     let present: bool = kani::any();
@@ -327,16 +327,16 @@ pub fn st_get_threshold() {
 }
 
 // =========================================================================================== weighted threshold
-struct WtPre {
-    acct: Address,
-    rule: ContextRule,
-    present: bool,
-    params: wt::WeightedThresholdAccountParams,
-    main: Slot,
-    other: Slot,
+pub(crate) struct WtPre {
+    pub(crate) acct: Address,
+    pub(crate) rule: ContextRule,
+    pub(crate) present: bool,
+    pub(crate) params: wt::WeightedThresholdAccountParams,
+    pub(crate) main: Slot,
+    pub(crate) other: Slot,
 }
 /// arbitrary stored weights map (sorted, duplicate-free keys: the host's representation invariant), arbitrary threshold
-fn wt_declare() -> WtPre {
+pub(crate) fn wt_declare() -> WtPre {
     let acct = arb_acct();
     let rule = ContextRule::arb();
     let present: bool = kani::any();
@@ -347,7 +347,7 @@ fn wt_declare() -> WtPre {
     let other = declare_other(&wt::WeightedThresholdStorageKey::AccountContext(arb_acct(), kani::any()), &key);
     WtPre { acct, rule, present, params, main: model::slot(S_MAIN), other }
 }
-fn wt_post() -> wt::WeightedThresholdAccountParams {
+pub(crate) fn wt_post() -> wt::WeightedThresholdAccountParams {
     model::slot_val::<wt::WeightedThresholdAccountParams>(S_MAIN)
 }
 
@@ -446,7 +446,7 @@ pub fn wt_enforce_accepts() {
 }
 
 /// threshold >= 1 and reachable with the weights now stored
-fn wt_reachable(post: &wt::WeightedThresholdAccountParams) -> bool {
+pub(crate) fn wt_reachable(post: &wt::WeightedThresholdAccountParams) -> bool {
     let total = total_weight(&post.signer_weights);
     post.threshold >= 1 && (post.threshold as u64) <= total && total <= u32::MAX as u64
 }
@@ -584,18 +584,18 @@ pub fn wt_getters() {
 }
 
 // =========================================================================================== spending limit
-const HIST: usize = 3; // history entries in the pre-state (the call may append one: CAP = 4)
+pub(crate) const HIST: usize = 3; // history entries in the pre-state (the call may append one: CAP = 4)
 
-struct SlPre {
-    acct: Address,
-    rule: ContextRule,
-    present: bool,
-    data: sl::SpendingLimitData,
-    main: Slot,
-    other: Slot,
+pub(crate) struct SlPre {
+    pub(crate) acct: Address,
+    pub(crate) rule: ContextRule,
+    pub(crate) present: bool,
+    pub(crate) data: sl::SpendingLimitData,
+    pub(crate) main: Slot,
+    pub(crate) other: Slot,
 }
 /// arbitrary stored SpendingLimitData satisfying I (module doc)
-fn sl_declare(e: &Env) -> SlPre {
+pub(crate) fn sl_declare(e: &Env) -> SlPre {
     let seq = world().seq;
     kani::assume(seq >= 1);
     let acct = arb_acct();
@@ -631,11 +631,11 @@ fn sl_declare(e: &Env) -> SlPre {
     let other = declare_other(&sl::SpendingLimitStorageKey::AccountContext(arb_acct(), kani::any()), &key);
     SlPre { acct, rule, present, data, main: model::slot(S_MAIN), other }
 }
-fn sl_post() -> sl::SpendingLimitData {
+pub(crate) fn sl_post() -> sl::SpendingLimitData {
     model::slot_val::<sl::SpendingLimitData>(S_MAIN)
 }
 /// history entry `i`; an index outside the vector is a failed property (never a silent harness panic)
-fn at(v: &Vec<sl::SpendingEntry>, i: u32) -> sl::SpendingEntry {
+pub(crate) fn at(v: &Vec<sl::SpendingEntry>, i: u32) -> sl::SpendingEntry {
     match v.get(i) {
         Some(x) => x,
         None => {
@@ -646,7 +646,7 @@ fn at(v: &Vec<sl::SpendingEntry>, i: u32) -> sl::SpendingEntry {
 }
 /// the amount of a well-formed transfer context, as the code reads it: a contract call of a function named
 /// `transfer` whose argument at index 2 exists and is an i128 (the code accepts MORE than three arguments)
-fn transfer_amount(_e: &Env, ctx: &Context) -> Option<i128> {
+pub(crate) fn transfer_amount(_e: &Env, ctx: &Context) -> Option<i128> {
     match ctx {
         Context::Contract(ContractContext { fn_name, args, .. }) => {
             if *fn_name != symbol_short!("transfer") || args.len() < 3 {
@@ -661,11 +661,11 @@ fn transfer_amount(_e: &Env, ctx: &Context) -> Option<i128> {
     }
 }
 /// entry `en` lies outside the window of `period` ledgers ending at `seq` (integers, no saturation)
-fn expired(en: &sl::SpendingEntry, seq: u32, period: u32) -> bool {
+pub(crate) fn expired(en: &sl::SpendingEntry, seq: u32, period: u32) -> bool {
     (en.ledger_sequence as i64) <= (seq as i64) - (period as i64)
 }
 /// (number of expired entries, sum of their amounts); by I they form a prefix of the history
-fn expired_prefix(d: &sl::SpendingLimitData, seq: u32) -> (u32, i128) {
+pub(crate) fn expired_prefix(d: &sl::SpendingLimitData, seq: u32) -> (u32, i128) {
     let mut k = 0u32;
     let mut sum = 0i128;
     let mut i = 0;
@@ -683,7 +683,7 @@ fn expired_prefix(d: &sl::SpendingLimitData, seq: u32) -> (u32, i128) {
     (k, sum)
 }
 /// a fully arbitrary context, or (to make the interesting region cheap to reach) an arbitrary `transfer` call
-fn arb_context() -> Context {
+pub(crate) fn arb_context() -> Context {
     Context::arb()
 }
 
